@@ -20,7 +20,22 @@ type Cfg struct {
 	// hands are in flight. (A replay file is always executed first thing in
 	// a fresh process.)
 	Cold bool `json:"cold,omitempty"`
+	// Tier the member hands were generated with (their oracles make engine
+	// calls, which count as scheduling points)
+	Tier string `json:"tier,omitempty"`
+	// History: the groups this process had played before this one, in order
+	// (recorded with a violation only). A change that keeps state in package
+	// level variables makes a group depend on what its process did before;
+	// the replay first plays these groups again, in a fresh process.
+	History []uint64 `json:"history,omitempty"`
 }
+
+// what this process has generated so far (sub-seeds of the groups, in order)
+var history []uint64
+
+// a replay has already run in this process (its history prefix is then not
+// played again: the process is no longer fresh anyway)
+var replayed bool
 
 // World implements sim.World for world Y. Cold selects the cold-start groups
 // (one group per process, see Cfg.Cold).
@@ -82,6 +97,9 @@ func (w World) exec(cfg *Cfg, rng *sim.RNG, script []Switch, o sim.Options) *sim
 	}
 	mo := o
 	mo.KeepLog = true
+	if cfg.Tier != "" {
+		mo.Tier = cfg.Tier
+	}
 	k := len(cfg.Members)
 	// 1. every hand alone (also: which functions run, how many scheduling
 	// points). Cold groups do this after the concurrent execution.
@@ -122,7 +140,7 @@ func (w World) exec(cfg *Cfg, rng *sim.RNG, script []Switch, o sim.Options) *sim
 		} else {
 			s.pol = drawPolicy(rng, seen, points)
 		}
-		cfg.Policy = fmt.Sprintf("quantum=%d focus=%s p=%.3f first-touch=%d cap=%d", s.pol.quantum, funcName(s.pol.focus), s.pol.focusP, s.pol.first, s.pol.maxSw)
+		cfg.Policy = fmt.Sprintf("quantum=%d focus=%s p=%.3f first-touch=%d after-unlock=%d cap=%d", s.pol.quantum, funcName(s.pol.focus), s.pol.focusP, s.pol.first, s.pol.unlockW, s.pol.maxSw)
 	}
 	conc := make([]*sim.Result, k)
 	panics := make([]string, k)
@@ -140,8 +158,10 @@ func (w World) exec(cfg *Cfg, rng *sim.RNG, script []Switch, o sim.Options) *sim
 		}
 	}
 	install(s.hook, s.blocked)
+	installU(s.unlocked)
 	s.run(fns)
 	install(nil, nil)
+	installU(nil)
 	if cfg.Cold && !s.deadlock && s.fault == "" {
 		res.Count("probe.conc.cold-start-groups", 1)
 		if f := runSolo(); f != "" {
@@ -160,7 +180,9 @@ func (w World) exec(cfg *Cfg, rng *sim.RNG, script []Switch, o sim.Options) *sim
 	if s.foreign > 0 {
 		res.Count("probe.conc.scheduling-point-on-a-goroutine-of-the-engine", int64(s.foreign))
 	}
-	if s.pol.focus >= 0 {
+	if s.pol.unlockW > 0 {
+		res.Count("probe.conc.policy-after-unlock", 1)
+	} else if s.pol.focus >= 0 {
 		res.Count("probe.conc.policy-focus-function", 1)
 	} else if script == nil {
 		res.Count("probe.conc.policy-quantum", 1)
@@ -242,6 +264,11 @@ func funcName(fid int) string {
 
 func drawPolicy(r *sim.RNG, seen map[int]int64, points int64) policy {
 	p := policy{focus: -1, maxSw: 400}
+	if r.Chance(0.2) {
+		// right after a lock has been released (does nothing in code without locks)
+		p.unlockW = []int{2, 5, 12, 30}[r.Intn(4)]
+		return p
+	}
 	if len(seen) > 0 && r.Chance(0.5) {
 		ids := make([]int, 0, len(seen))
 		for id := range seen {
@@ -266,14 +293,19 @@ func (w World) Generate(subseed uint64, o sim.Options) *sim.Result {
 	if rng.Chance(0.3) {
 		k = 3
 	}
-	cfg := &Cfg{Cold: w.Cold}
+	cfg := &Cfg{Cold: w.Cold, Tier: o.Tier}
 	for i := 0; i < k; i++ {
 		cfg.Members = append(cfg.Members, rng.Uint64())
 	}
 	res := w.exec(cfg, rng, nil, o)
 	if res.Case != nil {
 		res.Case.SubSeed = subseed
+		if len(res.Violations) > 0 && len(history) > 0 {
+			cfg.History = append([]uint64(nil), history...)
+			res.Case.Config, _ = json.Marshal(cfg)
+		}
 	}
+	history = append(history, subseed)
 	return res
 }
 
@@ -294,6 +326,18 @@ func (w World) Replay(c *sim.Case, o sim.Options) *sim.Result {
 	if script == nil {
 		script = []Switch{}
 	}
+	if len(cfg.History) > 0 && !replayed && len(history) == 0 {
+		// bring the process into the state the group met
+		ho := o
+		ho.Tier = cfg.Tier
+		for _, h := range cfg.History {
+			World{}.Generate(h, ho)
+			if poisoned {
+				break
+			}
+		}
+	}
+	replayed = true
 	res := w.exec(&cfg, nil, script, o)
 	if res.Case != nil {
 		res.Case.SubSeed = c.SubSeed
@@ -310,7 +354,7 @@ func (w World) Simplify(c *sim.Case) []*sim.Case {
 	}
 	var out []*sim.Case
 	for d := range cfg.Members {
-		n := Cfg{Policy: cfg.Policy, Cold: cfg.Cold}
+		n := Cfg{Policy: cfg.Policy, Cold: cfg.Cold, Tier: cfg.Tier, History: cfg.History}
 		remap := map[int]int{}
 		for i, m := range cfg.Members {
 			if i != d {
